@@ -77,10 +77,10 @@ def compactLen : Bytes → Option (Nat × Nat)
     match r with
     | [] => none
     | b1 :: r2 =>
-      if b1.toNat < 128 then some (b0.toNat % 128 + b1.toNat * 128, 2) else
+      if b1.toNat < 128 then some (b0.toNat % 128 + 128 * b1.toNat, 2) else
       match r2 with
       | [] => none
-      | b2 :: _ => some (b0.toNat % 128 + (b1.toNat % 128) * 128 + b2.toNat * 16384, 3)
+      | b2 :: _ => some (b0.toNat % 128 + 128 * (b1.toNat % 128) + 16384 * b2.toNat, 3)
 
 /-- filter header after the control byte of a basic-compression rectangle:
 (bytes of filter id + palette, length of the pixel data before compression) -/
@@ -214,7 +214,7 @@ def parseMsg (c : PCtx) (bs : Bytes) : Option (ServerMsg × Bytes) :=
       let (pad, r) ← rd8 r0
       let (first, r) ← rd16 r
       let (n, r) ← rd16 r
-      let (d, r) ← takeN (n * 6) r
+      let (d, r) ← takeN (6 * n) r
       pure (.colourMap pad first n d, r)
     else if ty = rfbBell then some (.bell, r0)
     else if ty = rfbServerCutText then do
